@@ -15,6 +15,7 @@ import dali.device.general as dg
 import dali.driver.hid as H
 import dali.driver.serial as S
 import dali.driver.atxled as ATX
+import dali.driver.daliserver as DSM
 
 META = {
     "level_text": "Bounded symbolic verification of the drivers' send(): for a set of command shapes (yes/no, "
@@ -34,6 +35,9 @@ META = {
     "explanation": "symbolic execution of hid.send/_send_raw/_handle_read, serial send/send_dali_command/"
                    "data_received with symbolic gateway reports under a virtual clock",
     "bounds": ["command shapes: 7 (enumerated), report type/status/value bytes symbolic",
+               "daliserver client: every history of 2 (thorough 3) commands from {numeric query, yes/no query, "
+               "non-query, send-twice} over a persistent or per-command connection, every transmission with its "
+               "own symbolic status (0/1/255) and value",
                "<= 2 callers, one command each; delivery order of their reports symbolic",
                "one stale / duplicate report"],
     "stubs": ["fake os / transport (harness environment)", "struct format interpreter in symbolic mode",
@@ -413,8 +417,86 @@ def h_atx(ctx, shape):
     return "%s:%s" % (name, "answered" if answered else "silent")
 
 
+# ---------------------------------------------------------------------------------------------
+# daliserver client: a history of commands over one connection (or one connection each)
+
+class _DaliServerModel:
+    """daliserver: every 4-byte request is put on the bus once and answered with one 4-byte status
+    message (version 2, status 0 none / 1 answer / 255 garbled, value, pad), in order, per connection."""
+
+    def __init__(self, outcomes):
+        self.outcomes = outcomes
+        self.transmissions = []          # (frame bytes, connection index)
+        self.conns = []
+
+    def connect(self, target):
+        c = _DaliServerConn(self, len(self.conns))
+        self.conns.append(c)
+        return c
+
+
+class _DaliServerConn:
+    def __init__(self, model, idx):
+        self.model, self.idx, self.queue, self.closed = model, idx, [], False
+
+    def send(self, data):
+        n = len(self.model.transmissions)
+        self.model.transmissions.append((data, self.idx))
+        status, val = self.model.outcomes[n]
+        self.queue.append(rigs.mkbytes([2, status, val, 0]))
+
+    def recv(self, n):
+        if not self.queue:
+            raise RuntimeError("recv() with nothing to read: the client would block forever")
+        return self.queue.pop(0)
+
+    def close(self):
+        self.closed = True
+
+
+DS_SHAPES = [1, 0, 3, 4]          # numeric, yes/no, non-query, send-twice
+
+
+def h_daliserver_history(ctx, n):
+    persistent = ctx.fresh_bool("persistent")
+    cmds = [SHAPES[DS_SHAPES[ctx.fresh_choice("shape%d" % k, len(DS_SHAPES))]][1]() for k in range(n)]
+    outcomes = []
+    for t in range(2 * n):
+        code = ctx.fresh_choice("status%d" % t, 3)
+        outcomes.append(([0, 1, 255][code], ctx.fresh("val%d" % t, 0, 255)))
+    model = _DaliServerModel(outcomes)
+    saved = DSM.socket
+    DSM.socket = types.SimpleNamespace(create_connection=model.connect)
+    try:
+        drv = DSM.DaliServer(multiple_frames_per_connection=persistent)
+        drv.__enter__()
+        for k, cmd in enumerate(cmds):
+            tag = "daliserver/cmd%d" % k
+            st, r = call(drv.send, cmd)
+            if st == "exc":
+                ctx.fail("send raised %r" % (r,), key=tag + "/raised:" + type(r).__name__)
+                return "raised"
+            last = len(model.transmissions) - 1
+            own = [t for t in model.transmissions[-(2 if cmd.sendtwice else 1):]]
+            ctx.prove(len(model.transmissions) >= (2 if cmd.sendtwice else 1) and
+                      all(bytes(d[2:]) == cmd.frame.pack for d, _ in own),
+                      "the command was not transmitted once (twice for send-twice)", key=tag + "/transmissions")
+            status, val = outcomes[last]
+            _check_typed(ctx, cmd, r, {0: "none", 1: "value", 255: "error"}[status], val, tag)
+            ctx.prove(all(not c.queue for c in model.conns),
+                      "a status message is left unread on the connection (the next command would take it "
+                      "for its own)", key=tag + "/unread-status")
+        drv.__exit__(None, None, None)
+    finally:
+        DSM.socket = saved
+    if not persistent:
+        ctx.prove(all(c.closed for c in model.conns), "a per-command connection was left open",
+                  key="daliserver/conn-open")
+    return "%s:%s" % ("persistent" if persistent else "per-command", ",".join(type(c).__name__ for c in cmds))
+
+
 def cases(tier):
-    cs = []
+    cs = [Case("daliserver-history", h_daliserver_history, {"n": 2 if tier == "quick" else 3})]
     for i, (name, _) in enumerate(SHAPES):
         cs.append(Case("tridonic-%s" % name, h_tridonic_single, {"shape": i}, install=rigs.install_tridonic_structs))
         if name != "dev24":
